@@ -338,7 +338,7 @@ func cmdVC(args []string) int {
 	var sel []target
 	for _, t := range ts {
 		k := keyOfFunction(t.fn)
-		if strings.Contains(displayKey(k), pat) {
+		if ok, err := regexp.MatchString(pat, displayKey(k)); (err == nil && ok) || strings.Contains(displayKey(k), pat) {
 			sel = append(sel, t)
 		}
 	}
@@ -444,7 +444,7 @@ func splitFields(s string) []string {
 
 var reOrdSuffix = regexp.MustCompile(`(@ret\d+|@b\d+)$`)
 var rePreOrd = regexp.MustCompile(`@\d+\.`)
-var reNumbered = regexp.MustCompile(`/(nil|idx|assert|div|unreachable|makeslice|typeinv|cover)#`)
+var reNumbered = regexp.MustCompile(`/(nil|idx|assert|div|unreachable|makeslice|typeinv|monotone|cover|frame|pre)#`)
 
 // canonName: the stable part of an obligation name. Return/latch ordinals are dropped, and
 // obligations that are only numbered in instruction order (safety checks) have no stable name.
